@@ -32,7 +32,8 @@ TRUSTED = [
     "tie/impl/c16_graph.py, tie/impl/c16_links.py (observation of the real DirectedGraph / real parsers: constructor and "
     "compute_fn event log) and the Gallina printer",
     "hand-written models coq/Model/Graph.v, coq/Model/LinkOrder.v, tied by per-case agreement evaluated inside Coq",
-    "the generated scratch classes (constructors log what they receive; link parameters l0..l7)",
+    "the generated scratch classes (constructors log what they receive; link parameters l0..l7; attributes at = marker "
+    "object, an/az/ae/af = None/0/''/False — the convention Model.LinkOrder.attr_value relies on)",
 ]
 ASSUMPTIONS = [
     "node labels are hashable values compared by ==; the model uses strings",
@@ -503,9 +504,10 @@ META = {
                   "C16_source_under_group_refuted, C16_nested_self_link_refuted) = the three open findings. "
                   "Only exercised by the correspondence (not proved in general): that the values received, the exactly-once "
                   "construction and the compute_fn calls of the model satisfy the spec beyond the small space (longer link "
-                  "sequences, two-source links, four-object nested layouts), and that model = implementation (14.2k cases quick, "
+                  "sequences, two-source links, four-object nested layouts), and that model = implementation (14.9k cases quick, "
                   "~120k thorough: every digraph on <=3 nodes, every loop-free one on 4, all 543 DAGs on four class groups in all "
-                  "declaration orders, component names that are string prefixes of one another in all declaration orders).",
+                  "declaration orders, component names that are string prefixes of one another in all declaration orders, source "
+                  "attributes holding None / 0 / '' / False, two sources from one component).",
     "level_note": "Trusted: Coq kernel/VM; the hand-written models Model/Graph.v and Model/LinkOrder.v outside the enumerated "
                   "cases (in particular the abstraction of a parser to a list of components with dest/kind/units, and of "
                   "find_subclass_action_or_class_group to resolve_src); the observation harness tie/impl/c16_*.py with its scratch "
